@@ -18,6 +18,7 @@ From Tx Require Model.OpsC06.
 From Tx Require Model.OpsC14.
 From Tx Require Model.OpsC07.
 From Tx Require Model.OpsC19.
+From Tx Require Model.OpsC20.
 Local Open Scope Z_scope.
 
 Definition run_op (s : sexp) : sexp :=
@@ -41,6 +42,7 @@ Definition run_op (s : sexp) : sexp :=
       | 14 => OpsC14.op args
       | 7 => OpsC07.op args
       | 19 => OpsC19.op args
+      | 20 => OpsC20.op args
       | _ => bad
       end
   | _ => bad
